@@ -55,7 +55,8 @@ Definition prel (rho : corr) (p p' : val * val) : Prop := vrel rho (fst p) (fst 
 Inductive nrel (rho : corr) : node -> node -> Prop :=
 | nr_list : forall l l', Forall2 (vrel rho) l l' -> nrel rho (NList l) (NList l')
 | nr_dict : forall kvs kvs', Forall2 (prel rho) kvs kvs' -> nrel rho (NDict kvs) (NDict kvs')
-| nr_set : forall l l', Forall2 (vrel rho) l l' -> nrel rho (NSet l) (NSet l').
+| nr_set : forall l l', Forall2 (vrel rho) l l' -> nrel rho (NSet l) (NSet l')
+| nr_obj : forall m n args args', Forall2 (vrel rho) args args' -> nrel rho (NObj m n args) (NObj m n args').
 
 (** the object at source address [a] and the object at decoder address [a'] correspond *)
 Definition complete (rho : corr) (h dh : heap) (a a' : addr) : Prop :=
@@ -89,3 +90,93 @@ Definition wf_heap (h : heap) : Prop := Forall wf_node h /\ N.of_nat (length h) 
 (** the host pickler declines every object of the heap (lists, dicts, sets only) *)
 Definition no_host (pk : option (node -> presult)) (h : heap) : Prop :=
   forall p nd, pk = Some p -> In nd h -> p nd = PCannot.
+
+(** * Host objects: what the encoder visits, and when it terminates *)
+
+(** [taken pk nd]: the host pickler is asked about [nd] (sets never reach it) and takes it *)
+Definition taken (pk : option (node -> presult)) (nd : node) : option (bytes * bytes * list val) :=
+  match nd, pk with
+  | NSet _, _ => None
+  | _, None => None
+  | _, Some p => match p nd with POk m n args => Some (m, n, args) | _ => None end
+  end.
+
+(** the values the encoder descends into below an object: the pickler's constructor arguments when the
+    pickler takes it, its contents otherwise (nothing when encoding it is an error) *)
+Definition succs (pk : option (node -> presult)) (nd : node) : list val :=
+  match taken pk nd with
+  | Some (_, _, args) => args
+  | None => match nd with
+            | NList l => l
+            | NDict kvs => flat_pairs kvs
+            | NSet l => l
+            | NObj _ _ _ => []
+            end
+  end.
+
+(** [reach_val pk h v a]: the encoder, started on [v], can arrive at the object at address [a] *)
+Inductive reach_val (pk : option (node -> presult)) (h : heap) : val -> addr -> Prop :=
+| rv_ref : forall a, reach_val pk h (VRef a) a
+| rv_tuple : forall l x a, In x l -> reach_val pk h x a -> reach_val pk h (VTuple l) a
+| rv_step : forall b nd x a, nth_error h b = Some nd -> In x (succs pk nd) -> reach_val pk h x a ->
+                             reach_val pk h (VRef b) a.
+
+(** the addresses a value mentions *)
+Fixpoint refs (v : val) : list addr :=
+  match v with
+  | VRef a => [a]
+  | VTuple l => flat_map refs l
+  | _ => []
+  end.
+
+(** no object taken by the host pickler is reachable from its own constructor arguments.  (Lists, dicts
+    and sets may contain themselves: they are memoized BEFORE their contents; an object taken by the pickler
+    is memoized AFTER its arguments, as in pickle's NEWOBJ protocol.) *)
+Definition host_acyclic (pk : option (node -> presult)) (h : heap) : Prop :=
+  forall a nd m n args x, nth_error h a = Some nd -> taken pk nd = Some (m, n, args) -> In x args ->
+                          ~ reach_val pk h x a.
+
+(** the host pickler/unpickler pair is object-preserving on this heap: the pickler declines lists, dicts and
+    sets, and a host object is taken apart into exactly its module, name and arguments, which the unpickler
+    [obj_unpickler] puts together again (module and name fit the 4-byte length field) *)
+Definition host_pair (pk : option (node -> presult)) (unp : option unpickle_fn) (h : heap) : Prop :=
+  forall p nd, pk = Some p -> In nd h ->
+               match nd with
+               | NObj m n args => p nd = PCannot \/
+                                  (p nd = POk m n args /\ unp = Some obj_unpickler /\
+                                   len m < 4294967296 /\ len n < 4294967296)
+               | NSet _ => True     (* sets are never offered to the pickler *)
+               | _ => p nd = PCannot
+               end.
+
+(** fuel the encoder needs: every object is entered at most once, and below an object the tuple nesting is
+    bounded by the deepest value stored in the heap (or returned by the pickler) *)
+Definition node_depth (pk : option (node -> presult)) (nd : node) : nat := depth (VTuple (succs pk nd)).
+Definition heap_depth (pk : option (node -> presult)) (h : heap) : nat :=
+  fold_right (fun nd m => Nat.max (node_depth pk nd) m) O h.
+Definition enc_fuel (pk : option (node -> presult)) (h : heap) (v : val) : nat :=
+  S (depth v) + length h * S (S (heap_depth pk h)).
+
+(** * Encodable graphs *)
+
+(** [val_ok h v]: a Starlark value over the heap [h]: no dangling reference, no decoder-internal value *)
+Inductive val_ok (h : heap) : val -> Prop :=
+| vo_none : val_ok h VNone
+| vo_bool : forall b, val_ok h (VBool b)
+| vo_int : forall z, val_ok h (VInt z)
+| vo_float : forall bits, val_ok h (VFloat bits)
+| vo_str : forall s, val_ok h (VStr s)
+| vo_bytes : forall s, val_ok h (VBytes s)
+| vo_tuple : forall l, Forall (val_ok h) l -> val_ok h (VTuple l)
+| vo_ref : forall a, (a < length h)%nat -> val_ok h (VRef a).
+
+(** the encoder has a case for the object: the pickler takes every host object and fails on none *)
+Definition node_ok (pk : option (node -> presult)) (nd : node) : Prop :=
+  match nd with
+  | NSet _ => True
+  | NObj _ _ _ => taken pk nd <> None
+  | _ => match pk with Some p => p nd <> PFail | None => True end
+  end.
+
+Definition heap_ok (pk : option (node -> presult)) (h : heap) : Prop :=
+  forall nd, In nd h -> node_ok pk nd /\ Forall (val_ok h) (succs pk nd).
